@@ -137,9 +137,9 @@ def run_c19(ctx):
             jobs.append(('roundtrip', size, style, rng.choice(['random', 'zero', 'text']), password(rng)))
     # ---- tamper
     for size in ([0, 1, 40, B - 16, B + 3] if not ctx.thorough else [0, 1, 16, 40, B - 16, B + 3, 2 * B - 32, 2 * B + 1]):
-        jobs.append(('tamper', size, password(rng)))
+        jobs.append(('tamper', size, password(rng), 5 if ctx.thorough else 97))
     # ---- I/O faults
-    for size in [0, 100, 3 * B + 5]:
+    for size in ([0, 100, 3 * B + 5] if not ctx.thorough else [0, 1, 100, B - 16, B, 2 * B + 7, 3 * B + 5, 6 * B]):
         jobs.append(('iofault', size, password(rng)))
     jobs.append(('genkey',))
     # ---- asconsum
@@ -262,7 +262,7 @@ def expect_reject(ctx, cli, d, pw, blob, what, pos, size):
     ctx.counters['tamper_runs'] = ctx.counters.get('tamper_runs', 0) + 1
 
 
-def tamper(ctx, cli, rng, size, pw):
+def tamper(ctx, cli, rng, size, pw, step=97):
     d = cli.workdir()
     data = content(rng, size, 'random')
     enc, rc, err = enc_dec(cli, d, data, pw)
@@ -271,12 +271,12 @@ def tamper(ctx, cli, rng, size, pw):
         return
     n = len(enc)
     small = n <= 400
-    pos_flip = list(range(n)) if small else sorted(set(list(range(OVERHEAD)) + list(range(OVERHEAD, n, 97)) + list(range(n - 40, n))))
+    pos_flip = list(range(n)) if small else sorted(set(list(range(OVERHEAD)) + list(range(OVERHEAD, n, step)) + list(range(n - 40, n))))
     for p in pos_flip:
         blob = bytearray(enc)
         blob[p] ^= 1 << rng.randrange(8)
         expect_reject(ctx, cli, d, pw, bytes(blob), 'bitflip-' + ('header' if p < 28 else 'sivblock' if p < 80 else 'tag' if p >= n - 16 else 'payload'), p, size)
-    lens = list(range(n)) if small else sorted(set(list(range(0, 130)) + list(range(130, n, 97)) + list(range(n - 40, n))))
+    lens = list(range(n)) if small else sorted(set(list(range(0, 130)) + list(range(130, n, step)) + list(range(n - 40, n))))
     for l in lens:
         expect_reject(ctx, cli, d, pw, enc[:l], 'truncate', l, size)
     for extra in (1, 2, 15, 16, 17, 20):
